@@ -48,6 +48,15 @@ type clSwapRec struct {
 	kind       string
 }
 
+type clIncent struct {
+	denom string
+	amt   sdkmath.Int
+	rate  sdkmath.LegacyDec
+	start time.Time
+	// creation synchronises the pool's uptime accumulators, so nothing emitted before this instant can be charged to the record
+	created time.Time
+}
+
 type clHooks struct {
 	// beforeSwap is called with the message about to be executed (state not yet touched); it may
 	// return a closure that is called with the result afterwards.
@@ -78,6 +87,7 @@ type clWorld struct {
 	// ledgers kept by the workload from message responses and observed transfers
 	feesPaid       sdk.Coins // spread rewards paid into the spread-reward account (observed balance deltas)
 	incentFunded   sdk.Coins
+	incents        map[uint64]clIncent // incentive records created by the world, by id
 	spreadClaimed  sdk.Coins
 	incentClaimed  sdk.Coins
 	swapsExecuted  int
@@ -622,7 +632,35 @@ func (w *clWorld) step(mix string) string {
 		p := ps[r.Intn(len(ps))]
 		liq := p.liq
 		full := r.Intn(3) == 0
-		if !full {
+		balanced := false
+		if r.Intn(5) == 0 {
+			// withdraw exactly what makes the liquidity on the two sides of a shared boundary tick equal
+			// (net liquidity of the tick 0 while positions still reference it)
+			for _, q := range ps {
+				for _, T := range []int64{q.lower, q.upper} {
+					net, others := sdkmath.LegacyZeroDec(), 0
+					for _, o := range w.pos {
+						if o.lower == T {
+							net = net.Add(o.liq)
+						}
+						if o.upper == T {
+							net = net.Sub(o.liq)
+						}
+						if o.id != q.id && (o.lower == T || o.upper == T) {
+							others++
+						}
+					}
+					need := net
+					if T == q.upper {
+						need = net.Neg()
+					}
+					if others > 0 && need.IsPositive() && need.LTE(q.liq) && !balanced {
+						p, liq, full, balanced = q, need, need.Equal(q.liq), true
+					}
+				}
+			}
+		}
+		if !full && !balanced {
 			// a fraction of the liquidity, 18 decimals
 			f := sdkmath.LegacyNewDecWithPrec(1+r.I64n(999), 3)
 			liq = p.liq.Mul(f)
@@ -684,9 +722,13 @@ func (w *clWorld) step(mix string) string {
 		up := w.uptimes[r.Intn(len(w.uptimes))]
 		w.c.Logf("CreateIncentive(%s%s, rate %s/s, start +%s, uptime %s)", amt, d, rate, start.Sub(w.ch.Ctx.BlockTime()), up)
 		cctx, write := w.ch.Ctx.CacheContext()
-		_, err := w.ch.App.ConcentratedLiquidityKeeper.CreateIncentive(cctx, w.poolID, w.funder.Addr, sdk.NewCoin(d, amt), rate, start, up)
+		rec, err := w.ch.App.ConcentratedLiquidityKeeper.CreateIncentive(cctx, w.poolID, w.funder.Addr, sdk.NewCoin(d, amt), rate, start, up)
 		if err == nil {
 			write()
+			if w.incents == nil {
+				w.incents = map[uint64]clIncent{}
+			}
+			w.incents[rec.IncentiveId] = clIncent{denom: d, amt: amt, rate: rate, start: start, created: w.ch.Ctx.BlockTime()}
 			w.incentFunded = w.incentFunded.Add(sdk.NewCoin(d, amt))
 			if w.minIncentUptime == 0 || up < w.minIncentUptime {
 				w.minIncentUptime = up
